@@ -53,6 +53,8 @@ def install(ex):
             S['(*%s.verifRWMutex).%s' % (pk, m)] = mk_rwmutex(m)
     from . import sched as _sched
     _sched.install(ex)
+    S['(*sync.Pool).Get'] = pool_get
+    S['(*sync.Pool).Put'] = pool_put
     S['runtime.KeepAlive'] = lambda ex, a, i: None
     S['internal/bytealg.MakeNoZero'] = lambda ex, a, i: ex.make_bytes([0] * a[0], 'makenozero')
 
@@ -100,6 +102,44 @@ def effects_end(ex, a, ins):
     for st in ex.pstate.get('streams', []):
         st.shared = False
     return n
+
+def pool_get(ex, a, ins):
+    """sync.Pool.Get: a fresh value from New (reuse of earlier values only removes allocations: a value obtained
+    from Get is exclusively owned until it is Put back)"""
+    p = a[0]
+    t = ex.prog.T('sync.Pool')
+    f = {x['name']: x for x in t['fields']}['New']
+    fn = ex._load(p.obj, p.off + f['off'], f['type'])
+    if fn is None:
+        return None
+    return ex.call_value(fn, [], ins)
+
+def pool_put(ex, a, ins):
+    """sync.Pool.Put: ownership of the value passes to the pool -- another goroutine may Get it at once. Every later
+    store to the memory it refers to by the goroutine that Put it is a use after release (checked in Memory.write)."""
+    v = a[1]
+    tid = None
+    if isinstance(v, Iface):
+        tid, v = v.tid, v.val
+    objs = []
+    if isinstance(v, Ptr) and v.obj is not None:
+        objs.append(v.obj)
+        # a pooled *[]byte / *T: what it points to is released as well
+        try:
+            t = ex.prog.T(tid) if tid else None
+            if t and t['kind'] == 'pointer':
+                inner = ex._load(v.obj, v.off, t['elem'])
+                if isinstance(inner, Slice) and inner.ptr.obj is not None:
+                    objs.append(inner.ptr.obj)
+                elif isinstance(inner, Ptr) and inner.obj is not None:
+                    objs.append(inner.obj)
+        except Exception:
+            pass
+    elif isinstance(v, Slice) and v.ptr.obj is not None:
+        objs.append(v.ptr.obj)
+    for o in objs:
+        o.meta = dict(o.meta or {}, pooled=ins.get('pos', '') if ins else 'Put')
+    return None
 
 def verif_assume(ex, a, ins):
     c = a[0]
